@@ -8,6 +8,9 @@ NOTES = {
     ('', 'C07', 2): 'caught by C05 (sweep of the end of init against the expiry with a hold at the dispatch) and by C07 with about 100 000 runs; the window is one lock acquisition wide',
     ('', 'C08', 3): 'MISSED by every check: needs Server.Clear() to run while no reservation is held and an unconsumed cached init error; through the front end that is only a race of the timeout with the release of an invocation whose init failed',
     ('', 'C10', 2): 'the patch no longer applies after fix F20 (same lines); its port patch2.ported.diff is harmless on the repaired tree: a reservation is refused for as long as the reset is in progress',
+    ('', 'C10', 3): 'the patch no longer applies after fixes F23/F24 (same lines); its port patch3.ported.diff is caught (emulator crash: nil reservation dereferenced)',
+    ('w2-', 'C07', 2): 'the patch no longer applies after fix F27 (same lines); its port w2-patch2.ported.diff is caught (emulator crash: negative WaitGroup counter)',
+    ('w6-', 'C05', 3): 'manifests (earlier runs reported C05.recovery), but in the changed code two cases of one select are ready at the same instant and Go picks at random: the confirmation replay of the first hit of the fixed quick seed does not reproduce and the check reports harness trouble (exit 2) instead of a violation; C01/w6-1 is the same change',
     ('', 'C13', 2): 'MISSED by every check: needs an internal registration under the name of an external extension that the launch loop has not created yet plus a further registration before the failed initialisation is torn down',
     ('w5-', 'C13', 2): 'MISSED: needs two calls of the same extension in flight at once (the actors of the simulation are sequential clients, like real extensions); no data race either (every access stays under the lock)',
     ('w5-', 'C17', 2): 'MISSED: the lost wake-up needs the ticker goroutine to run between two statements of the copy goroutine that have no lock acquisition, channel operation or goroutine start between them - not a scheduling point of the simulation, and not a data race',
